@@ -163,6 +163,32 @@ func genPairs(nU int, yield func(m *wire.Msg)) {
 	}
 }
 
+// genRoot: the pairs generator over {root, example, a.example}: questions for the root, records owned by the
+// root, the root as RDATA name (the root is never written as a pointer), plus an OPT-like root-owned tail.
+func genRoot(withOPT bool, yield func(m *wire.Msg)) {
+	U := [][][]byte{nil, enum.L("example"), enum.L("a", "example")}
+	for _, t := range nameTypes() {
+		for qi := range U {
+			for o1 := range U {
+				for n1 := range U {
+					for o2 := range U {
+						for n3 := range U {
+							m := &wire.Msg{ID: 1, Flags: 0x8400}
+							m.Q = []wire.Question{{Name: U[qi], Type: t, Class: 1}}
+							m.Sec[0] = []wire.RR{mkRR(t, U[o1], U[n1], U[(n1+n3+1)%len(U)])}
+							m.Sec[1] = []wire.RR{mkRR(2, U[o2], U[n3]), mkRR(2, nil, U[n1])}
+							if withOPT {
+								m.Sec[2] = []wire.RR{{Name: nil, Type: 41, Class: 1232, TTL: 0, Vals: enum.Default(wire.Specs[41])}}
+							}
+							yield(m)
+						}
+					}
+				}
+			}
+		}
+	}
+}
+
 // genSections: 2 questions + up to 4 records of RFC 1035 types (NS, CNAME, MX, SOA, PTR, MINFO, TXT, A)
 // with owners/targets over the universe: all type/name assignments for ≤ 2 records, ≤ dev deviations from
 // a base assignment for 3 and 4.
